@@ -12,9 +12,10 @@ the specification drive `Spec/Drive402.lean`.
   length: no illegal-transition error, operation never enabled unless asked for, a returned setter has
   seen the target.  The configuration graph is closed inside the kernel (`decide +kernel`, one closure
   per transport × auto-12 × target) and lifted to every history by `closed_sound`.
-* `reaches_target_partial` — progress (all start configurations but the open finding's): at most `d` stalls and no overall time-out ⇒ returns within
+* `reaches_target`, `target_entered` — progress from every start configuration: at most `d` stalls and no overall time-out ⇒ returns within
   `256·(d+1)` steps (ranking of the non-stall sub-graph, also checked in the kernel).
-* `fault_reset_needs_edge` — the open finding: FAULT with controlword bit 7 already set is never left.
+* `fault_reset_needs_edge` — the fact about a conformant drive that makes `_change_state` lower bit 7
+  (write CW_DISABLE_VOLTAGE) before the fault-reset command.
 * `uncommandable_refused`, `op_mode_refused`, `op_mode_code`.
 -/
 import CanopenModel.P402
@@ -273,13 +274,6 @@ example :
 
 /-! ## T reaches_target -/
 
-theorem mem_initsProg (pdo auto12 : Bool) (target : Nat) (s : PState) (r : Bool)
-    (h : (s = .fault ∨ s = .fra) → r = false) :
-    initCfg pdo auto12 target s r ∈ initsProg pdo auto12 target := by
-  unfold initsProg
-  refine List.mem_flatMap.mpr ⟨s, mem_all s, ?_⟩
-  cases s <;> cases r <;> simp_all
-
 theorem prog_all (pdo auto12 : Bool) (t : Nat) (ht : t ∈ [1, 2, 3, 4, 7])
     (hq : auto12 = true → t ≠ 7) : chkProg pdo auto12 t = true := by
   simp only [List.mem_cons, List.not_mem_nil, or_false] at ht
@@ -305,31 +299,19 @@ theorem prog_all (pdo auto12 : Bool) (t : Nat) (ht : t ∈ [1, 2, 3, 4, 7])
   · exact prog_tf7
   · exact absurd rfl (hq rfl)
 
-/-- Progress, for every delay bound `d`: if along the run the environment stalls at most `d` times
-    (the drive postpones its pending mandatory automatic transition at one of the library's accesses,
-    or the single-step time-out has not yet expired while the drive is not in the awaited state and
-    has nothing left to do by itself) and the overall time-out is never found expired, then after
-    at most `256·(d+1)` steps of the machine - hence as many status reads at most - the setter has
-    returned, having seen the target.
-    Excluded, each for a stated reason: FAULT / FAULT REACTION ACTIVE under a controlword whose bit 7
-    is already set (open finding, `fault_reset_needs_edge`), and target QUICK STOP ACTIVE on a drive
-    that leaves that state by itself (nobody can hold it there). -/
-/- Full statement aimed at (DESIGN §5), kept here because it is FALSE on the tree under test:
-
-    theorem reaches_target (pdo auto12 : Bool) (start : PState) (rst : Bool) (target : Nat)
-        (ht : target ∈ commandableTargets) (hq : auto12 = true → target ≠ specIdx .qsa)
-        (extra d : Nat) (chs : List Choice)
-        (hs : stallCount … chs ≤ d) (hf : noFatal … chs = true) (hl : 256 * (d + 1) ≤ chs.length) :
-        (run … chs).pc = .done ∧ seen … = target
-
-   i.e. the theorem below without hypothesis `hr`.  What is missing is exactly the start
-   configurations "FAULT (or FAULT REACTION ACTIVE falling into FAULT before the first read) while
-   bit 7 of the last controlword is still set": there `fault_reset_needs_edge` proves the opposite
-   (the setter never returns), and the correspondence run shows the same on the real code (open
-   finding `goto:fault-reset-bit-already-set:timeout`).  Everything else is proved. -/
-theorem reaches_target_partial (pdo auto12 : Bool) (start : PState) (rst : Bool) (target : Nat)
+/-- Progress, from **every** start configuration (8 power states × any value of bit 7 of the last
+    controlword, i.e. after any history of controlwords) to every commandable target, both transports,
+    any free status bits, for every delay bound `d`: if along the run the environment stalls at most
+    `d` times (the drive postpones its pending mandatory automatic transition at one of the library's
+    accesses, or the single-step time-out has not yet expired while the drive is not in the awaited
+    state and has nothing left to do by itself) and the overall time-out is never found expired, then
+    after at most `256·(d+1)` steps of the machine - hence at most as many status reads - the setter
+    has returned, having seen the target (with `never_illegal`: over SDO the drive is in the target).
+    `hq` is not a restriction on the library: a drive that leaves QUICK STOP ACTIVE by itself
+    (automatic transition 12) cannot be *held* there by anybody, so "the setter returns having seen
+    QUICK STOP ACTIVE" is not owed; for that drive `target_entered` proves that the state is entered. -/
+theorem reaches_target (pdo auto12 : Bool) (start : PState) (rst : Bool) (target : Nat)
     (ht : target ∈ commandableTargets)
-    (hr : (start = .fault ∨ start = .fra) → rst = false)
     (hq : auto12 = true → target ≠ specIdx .qsa)
     (extra d : Nat) (chs : List Choice)
     (hs : stallCount codeTables (viewOf extra) (initCfg pdo auto12 target start rst) chs ≤ d)
@@ -345,7 +327,7 @@ theorem reaches_target_partial (pdo auto12 : Bool) (start : PState) (rst : Bool)
   simp only [chkProg, Bool.and_eq_true] at hchk
   obtain ⟨hcl, hrk⟩ := hchk
   obtain ⟨hin, hstep, hgood, hconst⟩ := closed_facts hcl
-  have h0 := hin _ (mem_initsProg pdo auto12 target start rst hr)
+  have h0 := hin _ (mem_inits pdo auto12 target start rst)
   have hmem : c ∈ visProg pdo auto12 target := run_mem hstep chs _ h0
   have hterm : c.pc.terminal = true := by
     apply ranked_sound hstep hrk chs _ d h0 hs hf
@@ -370,7 +352,7 @@ theorem reaches_target_partial (pdo auto12 : Bool) (start : PState) (rst : Bool)
   · exact h
 
 /-- non-vacuity: NOT READY TO SWITCH ON → OPERATION ENABLED over SDO, the drive postponing its automatic
-    transition at its first five chances: the hypotheses of `reaches_target_partial` hold with `d = 5`, and
+    transition at its first five chances: the hypotheses of `reaches_target` hold with `d = 5`, and
     the run ends returned with the drive enabled -/
 example :
     stallCount codeTables (viewOf 0) (initCfg false false 4 .nrtso false)
@@ -381,44 +363,114 @@ example :
       (List.replicate 12 ⟨false, false⟩ ++ List.replicate 1600 ⟨true, false⟩)).st = .oe := by
   decide +kernel
 
-/-! ## T fault_reset_needs_edge (open finding: the hypothesis `hr` of `reaches_target_partial` is needed) -/
+/-! ## T target_entered -/
 
-def goodFault (c : Cfg) : Bool := c.st == .fault && c.rst && c.pc != .done
+theorem enter_all (pdo : Bool) : chkEnter pdo true 7 = true := by
+  cases pdo
+  · exact enter_ft7
+  · exact enter_tt7
 
-def chkFault (pdo auto12 : Bool) (t : Nat) : Bool :=
-  checkClosed litTables PState.num pdo auto12 t [initCfg pdo auto12 t .fault true] goodFault
-    (exploreFrom litTables PState.num [initCfg pdo auto12 t .fault true])
+/-- For every start configuration, commandable target and transport - including target QUICK STOP
+    ACTIVE on a drive that leaves that state by itself - under the hypotheses of `reaches_target`
+    there is a moment within the first `256·(d+1)` steps at which the setter has returned having seen
+    the target, or the drive is in the target state. -/
+theorem target_entered (pdo auto12 : Bool) (start : PState) (rst : Bool) (target : Nat)
+    (ht : target ∈ commandableTargets) (extra d : Nat) (chs : List Choice)
+    (hs : stallCount codeTables (viewOf extra) (initCfg pdo auto12 target start rst) chs ≤ d)
+    (hf : noFatal codeTables (viewOf extra) (initCfg pdo auto12 target start rst) chs = true)
+    (hl : 256 * (d + 1) ≤ chs.length) :
+    ∃ k, k ≤ chs.length ∧
+      ((run codeTables (viewOf extra) (initCfg pdo auto12 target start rst) (chs.take k)).pc = .done ∨
+       specIdx (run codeTables (viewOf extra) (initCfg pdo auto12 target start rst) (chs.take k)).st = target) := by
+  by_cases hq : auto12 = true → target ≠ specIdx .qsa
+  · exact ⟨chs.length, Nat.le_refl _, Or.inl (by
+      rw [List.take_length]
+      exact (reaches_target pdo auto12 start rst target ht hq extra d chs hs hf hl).1)⟩
+  · have ha : auto12 = true := by
+      cases auto12
+      · exact absurd (fun h => absurd h (by decide)) hq
+      · rfl
+    have htq : target = 7 := by
+      rw [specIdx_eq] at hq
+      by_cases h7 : target = 7
+      · exact h7
+      · exact absurd (fun _ => h7) hq
+    subst ha; subst htq
+    rw [codeTables_eq, viewOf_eq] at hs hf ⊢
+    rw [specIdx_eq]
+    have hchk := enter_all pdo
+    simp only [chkEnter, Bool.and_eq_true] at hchk
+    obtain ⟨hcl, hrk⟩ := hchk
+    obtain ⟨hin, hstep, hgood, hconst⟩ := closed_facts hcl
+    have h0 := hin _ (mem_inits pdo true 7 start rst)
+    have hr0 : 256 * d + rankOf (rankDfsS litTables PState.num stopEnter 100000 (visProg pdo true 7) 0)
+        (initCfg pdo true 7 start rst) ≤ chs.length := by
+      have := getSlot_lt (rankDfsS litTables PState.num stopEnter 100000 (visProg pdo true 7) 0)
+        (encCfg (initCfg pdo true 7 start rst))
+      unfold rankOf
+      omega
+    obtain ⟨k, hk, hstop⟩ := ranked_sound_stop hstep hrk chs _ d h0 hs hf hr0
+    refine ⟨k, hk, ?_⟩
+    -- the prefix run is in the closure, is not a time-out (no fatal step), not an error
+    have hmem := run_mem hstep (chs.take k) _ h0
+    have hfk : noFatal litTables PState.num (initCfg pdo true 7 start rst) (chs.take k) = true :=
+      noFatal_take litTables PState.num k chs _ hf
+    have hnt := no_timeout hstep (fun c hc => by
+      have := hgood c hc
+      simp only [goodProg, Bool.and_eq_true] at this
+      exact this.2) (chs.take k) _ h0 (by show Pc.init ≠ Pc.timeout; decide) hfk
+    have hg := hgood _ hmem
+    have hw := (hconst _ hmem).2
+    generalize run litTables PState.num (initCfg pdo true 7 start rst) (chs.take k) = c at *
+    simp only [goodProg, Bool.and_eq_true, bne_iff_ne, ne_eq] at hg
+    simp only [stopEnter, Bool.or_eq_true, beq_iff_eq, hw] at hstop
+    rcases hstop with ht | hs7
+    · left
+      cases hpc : c.pc <;> simp_all [Pc.terminal]
+    · exact Or.inr hs7
 
-theorem fault_all : ([false, true].all fun p => [false, true].all fun a => [1, 2, 3, 4, 7].all fun t =>
-    chkFault p a t) = true := by decide +kernel
+/-! ## T fault_reset_needs_edge (why `_change_state` lowers bit 7 before the fault-reset command) -/
 
-/-- A drive in FAULT whose last controlword already had bit 7 set is never reset by the setter: under
-    **every** schedule and however long it runs, the drive stays in FAULT (each fault-reset command
-    0x80 finds no rising edge) and the setter never returns - it can only end by its overall time-out.
-    This is why `reaches_target_partial` excludes these start configurations. -/
-theorem fault_reset_needs_edge (pdo auto12 : Bool) (target : Nat) (ht : target ∈ commandableTargets)
-    (extra : Nat) (chs : List Choice) :
-    let c := run codeTables (viewOf extra) (initCfg pdo auto12 target .fault true) chs
-    c.st = .fault ∧ c.rst = true ∧ c.pc ≠ .done := by
-  rw [commandableTargets_eq] at ht
-  rw [codeTables_eq, viewOf_eq]
-  intro c
-  have hall := fault_all
-  simp only [List.all_eq_true] at hall
-  have hchk : chkFault pdo auto12 target = true :=
-    hall pdo (by cases pdo <;> simp) auto12 (by cases auto12 <;> simp) target ht
-  have hg := (closed_sound hchk _ (List.mem_singleton.mpr rfl) chs).2
-  simp only [goodFault, Bool.and_eq_true, beq_iff_eq, bne_iff_ne, ne_eq] at hg
-  exact ⟨hg.1.1, hg.1.2, hg.2⟩
+/-- The fact about a conformant drive behind the fault-reset repair: in FAULT, while bit 7 of the last
+    controlword is set, **no** controlword with bit 7 set changes anything (no rising edge: the drive
+    stays in FAULT, the bit stays set) - so writing 0x80 again and again, as the setter did before
+    the repair, never leaves FAULT; whereas, whatever the last controlword was, `CW_DISABLE_VOLTAGE`
+    followed by the fault-reset command of the transition table leaves FAULT for SWITCH ON DISABLED,
+    the first write changing nothing but the bit. -/
+theorem fault_reset_needs_edge (c : Cfg) (hf : c.st = .fault) :
+    (c.rst = true → ∀ cw : Nat, cw.testBit 7 = true →
+      (receive c cw).st = .fault ∧ (receive c cw).rst = true) ∧
+    ((receive c codeTables.preCw).st = .fault ∧ (receive c codeTables.preCw).rst = false) ∧
+    (∀ cw, codeTables.ttOf codeTables.fault (specIdx .sod) = some cw →
+      (receive (receive c codeTables.preCw) cw).st = .sod) := by
+  rw [codeTables_eq, specIdx_eq]
+  obtain ⟨p, a, t, s, r, ca, pc, f, n⟩ := c
+  simp only at hf
+  subst hf
+  refine ⟨?_, ?_, ?_⟩
+  · intro hr cw hb
+    simp only at hr
+    subst hr
+    have hc : commandStates PState.fault false cw = [] := rfl
+    simp [receive, hc, hb]
+  · cases r <;> exact ⟨rfl, rfl⟩
+  · intro cw hcw
+    have : cw = 128 := by
+      have h : litTables.ttOf litTables.fault PState.sod.num = some 128 := by decide
+      rw [h] at hcw
+      exact (Option.some.inj hcw).symm
+    subst this
+    cases r <;> rfl
 
-/-- the finding on a concrete run: FAULT, bit 7 set, target SWITCH ON DISABLED, SDO, drive and clock as
-    in the correspondence (time-outs 8 and 4 ticks): the library sends 0x80 again and again and
-    gives up with the time-out error, the drive still in FAULT -/
+/-- the repaired setter on the history that used to fail: FAULT, bit 7 already set, target SWITCH ON
+    DISABLED, SDO, time-outs 8 and 4 ticks: it writes 0x0000, then 0x0080, and returns -/
 example :
     (runConcrete codeTables (viewOf 0) ⟨[], 0, 8, 4⟩ 1000
-      { c := initCfg false false 1 .fault true }).c.pc = .timeout ∧
+      { c := initCfg false false 1 .fault true }).c.pc = .done ∧
     (runConcrete codeTables (viewOf 0) ⟨[], 0, 8, 4⟩ 1000
-      { c := initCfg false false 1 .fault true }).cws = [128, 128] := by decide +kernel
+      { c := initCfg false false 1 .fault true }).c.st = .sod ∧
+    (runConcrete codeTables (viewOf 0) ⟨[], 0, 8, 4⟩ 1000
+      { c := initCfg false false 1 .fault true }).cws.reverse = [0, 128] := by decide +kernel
 
 /-! ## T uncommandable_refused -/
 
